@@ -357,16 +357,34 @@ def r20_5(ctx):
                 if callee != "super()._simplify_up" and args[:2] != [f.params[1], f.params[2]]:
                     ctx.finding(rr, cst, f"gate called with {args}, not (parent, dependents)", func=f, node=r)
                 continue
-            if c.name == "SlidingWindowView":
-                rr.exempt(cst, "rewrites a *reduction* parent into the native sliding-window kernels; not a slice/rechunk/shuffle pushdown")
+            # a rewrite that is not a pushdown (SlidingWindowView fuses its reduction parent into the native kernels) builds its
+            # replacement itself; it may hand it back only under the grid contract: the return is controlled by a condition that
+            # consults _has_grid_sensitive_dependent / _preserve_grid_contract
+            from .common import chain_conjuncts
+
+            conj = chain_conjuncts(cfg_of(ctx, f), r, f.node, f.module)
+            guarded = any("_has_grid_sensitive_dependent" in x or "_preserve_grid_contract" in x for x in conj) or "_preserve_grid_contract" in callee
+            if not guarded and isinstance(v, ast.Call) and isinstance(v.func, ast.Attribute) and isinstance(v.func.value, ast.Name) and v.func.value.id == "self":
+                # ``return self._unless_grid_observed(parent, dependents, fused)``: a method of the class that consults the
+                # contract and can answer None
+                hit = repo.class_attr(c, v.func.attr)
+                if hit and hasattr(hit[1], "node"):
+                    h = hit[1]
+                    consults = any(isinstance(x, ast.Attribute) and x.attr in ("_has_grid_sensitive_dependent", "_preserve_grid_contract") for x in ast.walk(h.node))
+                    declines = any(isinstance(x, ast.Return) and (x.value is None or (isinstance(x.value, ast.Constant) and x.value.value is None)) for x in ast.walk(h.node))
+                    passes_deps = any(unparse(a) == f.params[2] for a in v.args) and any(unparse(a) == f.params[1] for a in v.args)
+                    guarded = consults and declines and passes_deps
+            rr.inst(cst + "::grid contract", consulted=guarded)
+            if guarded:
                 continue
-            ctx.finding(rr, cst, f"{c.name}._simplify_up returns {callee}(...) directly instead of dispatching to a pushdown gate", func=f, node=r)
+            ctx.finding(rr, cst, f"{c.name}._simplify_up returns {callee} - a replacement it built itself - without consulting the grid contract (_has_grid_sensitive_dependent / a pushdown gate): "
+                        "if the replacement runs on another block grid than the parent advertised, a consumer above that holds a per-block literal (map_blocks(chunks=...), repeat, .blocks) raises or reads other blocks", func=f, node=r)
     need(nover >= 10, "fewer than 10 _simplify_up overrides found")
     return rr
 
 
 def r20_6(ctx):
-    rr = RuleResult("R20.6", "COVER", "grid sensitivity is declared by un-aligned plain Blockwise and MapBlocksOutput; map_blocks builds un-aligned blockwise nodes", min_instances=4)
+    rr = RuleResult("R20.6", "COVER", "grid sensitivity is declared by un-aligned plain Blockwise, MapBlocksOutput and Blocks; map_blocks builds un-aligned blockwise nodes", min_instances=5)
     repo = ctx.repo
     bw = repo.mod("dask_array._blockwise").cls("Blockwise")
     f = bw.methods.get("_requires_grid_preservation")
@@ -380,6 +398,13 @@ def r20_6(ctx):
     rr.inst(f"{mbo.construct}::_requires_grid_preservation", defined=g is not None)
     if g is None or [unparse(n.value) for n in body_walk(g.node) if isinstance(n, ast.Return)] != ["True"]:
         ctx.finding(rr, f"{mbo.construct}::_requires_grid_preservation", "MapBlocksOutput no longer declares itself grid sensitive", file=mbo.module.path, line=mbo.node.lineno)
+    # x.blocks[...] addresses blocks of the advertised grid by position
+    blk = repo.mod("dask_array.slicing._blocks").cls("Blocks")
+    gb = repo.class_attr(blk, "_requires_grid_preservation")
+    own = gb is not None and gb[0] is blk
+    rr.inst(f"{blk.construct}::_requires_grid_preservation", defined=own)
+    if not own or [unparse(n.value) for n in body_walk(gb[1].node) if isinstance(n, ast.Return)] != ["True"]:
+        ctx.finding(rr, f"{blk.construct}::_requires_grid_preservation", "Blocks (x.blocks[...]) indexes its input's blocks by position but does not declare itself grid sensitive: a rewrite below may change the block grid and .blocks[i] then selects other data or raises", file=blk.module.path, line=blk.node.lineno)
     mb = repo.mod("dask_array._map_blocks").func("map_blocks")
     for n in body_walk(mb.node):
         if isinstance(n, ast.Call) and dotted(n.func) == "blockwise":
